@@ -112,6 +112,12 @@ func genC07Maps(level int) []*MapScen {
 				add(&MapScen{Rel: RelSD, NKeys: 3, Init: []int{1, 1, 0}, Table: TChain2, FillFirst: ff, Threads: [][]MIn{{opRange}, {on(w, 2)}}})
 			}
 		}
+		// a key is deleted, its slot refilled by another key, and the key re-inserted (further down the chain)
+		// while the chain is being traversed: it must still be visited at most once
+		for _, tb := range []TableCond{TPlain, TChain2} {
+			add(&MapScen{Rel: RelSD, NKeys: 3, Init: []int{1, 1, 0}, Table: tb, Threads: [][]MIn{{opRange}, {on(opDelete, 0), on(opStore, 2), on(opStore, 0)}}})
+			add(&MapScen{Rel: RelSD, NKeys: 3, Init: []int{1, 1, 0}, Table: tb, Threads: [][]MIn{{opRange}, {on(opDelete, 1), on(opStore, 2), on(opStore, 1)}}})
+		}
 		// very long chains (every key of the container in one bucket chain)
 		add(&MapScen{Rel: RelSD, NKeys: 3, Init: []int{1, 1, 0}, Table: TLongChain, Threads: [][]MIn{{opRange}}})
 		add(&MapScen{Rel: RelSD, NKeys: 3, Init: []int{1, 1, 0}, Table: TLongChain, Threads: [][]MIn{{opRange}, {on(opStore, 2)}}})
@@ -217,6 +223,15 @@ func genC13Maps(level int) []*MapScen {
 			for _, w2 := range []MIn{opStore, opLoad, opClear} {
 				add(&MapScen{Rel: RelLate, NKeys: 3, Init: []int{0, 1, 1}, Table: TGrowArmed, Bound: 2, Threads: [][]MIn{{on(opStore, 0)}, {on(w1, 1)}, {on(w2, 2)}}, ExpectGrow: true})
 				add(&MapScen{Rel: RelLate, NKeys: 3, Init: []int{1, 1, 1}, Table: TShrinkArmed, Bound: 2, Threads: [][]MIn{{on(opDelete, 0)}, {on(w1, 1)}, {on(w2, 2)}}})
+			}
+		}
+		// two writers of one bucket while the table is replaced under them
+		for _, w1 := range []MIn{opStore, opDelete, opLoS} {
+			for _, w2 := range []MIn{opStore, opDelete} {
+				for _, k2 := range []int{0, 1} {
+					add(&MapScen{Rel: RelSS, NKeys: 2, Init: []int{1, 0}, Table: TPlain, Bound: 2, Threads: [][]MIn{{opClear}, {on(w1, 0)}, {on(w2, k2)}}})
+				}
+				add(&MapScen{Rel: RelSD, NKeys: 3, Init: []int{0, 1, 0}, Table: TGrowArmed, Bound: 2, Threads: [][]MIn{{on(opStore, 0)}, {on(w1, 1)}, {on(w2, 1)}}, ExpectGrow: true})
 			}
 		}
 		// abandoned shrink: two deleters empty their buckets at once; the second shrink request finds nothing to do
